@@ -398,6 +398,82 @@ def hist_items(tier):
     return out
 
 
+_SUB_ORDER = r"""
+import sys, json, hashlib
+sys.path.insert(0, %r)
+from mc.props import c09
+from mc import runner
+items = c09.perm_items('quick')[::53]
+order = list(range(len(items)))
+if sys.argv[1] == 'rev':
+    order.reverse()
+out = {}
+for i in order:
+    spec, opts = items[i]
+    ex = runner.run(spec, dict(opts, phases=()))
+    out[i] = hashlib.sha256((c09.jdump(ex.m) if ex.error is None else 'ERR:' + ex.error).encode()).hexdigest()
+print(json.dumps(out))
+"""
+
+
+def history_dependence(col):
+    """The same models executed in one fresh interpreter in list order and in another in reversed order: the result of a
+    model must not depend on what was simulated before it in the same process (module-level caches, mutable defaults)."""
+    here = os.path.dirname(os.path.dirname(os.path.dirname(os.path.abspath(__file__))))
+    res = []
+    for mode in ("fwd", "rev"):
+        r = subprocess.run([sys.executable, "-c", _SUB_ORDER % here, mode], env=dict(os.environ, PYTHONHASHSEED="0"), capture_output=True, text=True, cwd=here)
+        if r.returncode != 0:
+            raise RuntimeError("subprocess failed: " + r.stderr[-2000:])
+        res.append(json.loads(r.stdout.strip().splitlines()[-1]))
+    col.checks["c09.history-dependence"] += 1
+    col.evaluations += 2 * len(res[0])
+    col.extra["history_dependence_models"] += len(res[0])
+    bad = sorted(k for k in res[0] if res[0][k] != res[1].get(k))
+    for k in res[0]:
+        col.transitions.add(hash(("order", k)))
+    if bad:
+        col.violation({"property": "C09", "sig": "C09:result-depends-on-what-was-simulated-earlier-in-the-process", "kind": "order",
+                       "detail": {"models_differing": len(bad), "of": len(res[0]), "first_model_index(in perm_items('quick')[::53])": bad[0]}})
+
+
+def default_id_rebuild(col):
+    """Models whose workers and facilities get the constructor's default IDs (uuid4): two builds must give the same result
+    once IDs are mapped back to names."""
+    import re
+
+    for sp0 in F.rule_sensitive_specs():
+        if not sp0["label"].startswith("pairs"):
+            continue
+        for one_worker in (False, True):
+            dumps = []
+            for rep in range(3):
+                m = S.build(sp0, plain=True)
+                if one_worker:
+                    m.teams[0].worker_list[:] = [w for w in m.teams[0].worker_list if w.name != "W1"]
+                import uuid
+
+                ren = {}
+                for o in [w for tm in m.teams for w in tm.worker_list] + m.facilities:
+                    new = str(uuid.uuid4())
+                    ren[new] = o.name
+                    o.ID = new
+                for wp in m.workplaces:
+                    for f in wp.facility_list:
+                        f.workplace_id = wp.ID
+                m.project.simulate(max_time=40, absence_time_list=[])
+                txt = jdump(S.adopt(m.project))
+                for k, v in ren.items():
+                    txt = txt.replace(k, v)
+                dumps.append(txt)
+            col.evaluations += 3
+            col.checks["c09.default-ids"] += 1
+            col.transitions.add(hash(("defaultid", sp0["label"], one_worker)))
+            if len(set(dumps)) != 1:
+                col.violation({"property": "C09", "sig": "C09:result-depends-on-generated-default-IDs", "kind": "defaultid", "address_dependent": True, "spec": sp0,
+                               "detail": {"distinct_results_in_3_builds": len(set(dumps)), "first_difference": first_diff(dumps[0], [d for d in dumps if d != dumps[0]][0])}})
+
+
 _SUB = r"""
 import sys, json, hashlib
 sys.path.insert(0, %r)
@@ -435,6 +511,8 @@ def run(tier, seed):
     hi = hist_items(tier)
     col.merge(engines.fanout(hi, work_hist, seed=seed))
     cross_process(col)
+    history_dependence(col)
+    default_id_rebuild(col)
     col.merge(engines.fanout(edit_cases(), work_edits, seed=seed))
     ei = event_items(tier)
     col.merge(engines.fanout(ei, work_events, seed=seed))
@@ -443,7 +521,7 @@ def run(tier, seed):
         "rule": "schedule exploration: for every 3-task workflow over the four dependency kinds x works {1,2} x layouts x rules (thorough: also 4-task FS/FF/SS) and FAC models, ALL n! "
         "assignments of hash ranks to tasks (and all permutations for components), i.e. every iteration order of every internal set of tasks/components, complete dump compared with "
         "the identity order (and all orders of worker hashes); histories on one object (simulate;simulate, simulate with other absence/auto arguments or log edits then simulate, backward_simulate with every flag pair then simulate), rebuilt models with the library's id()-hashed classes, edits of the model between two runs on one object (team targeting added/removed, skill, work amount, solo flag, absence list extended in place, worker moved to another team, dependency added) compared with a freshly built edited model, contamination histories (activity on project A, then "
-        "default-argument simulate on a fresh project B, mutable defaults compared), and one sub-family in two fresh interpreters with different PYTHONHASHSEED; per-iteration-event deviations: with a set subclass injected into the library's modules, every single iteration "
+        "default-argument simulate on a fresh project B, mutable defaults compared), one sub-family in two fresh interpreters with different PYTHONHASHSEED, the same models in list order and in reversed order in two fresh interpreters (no dependence on what ran earlier in the process), models whose resources get generated default IDs built three times; per-iteration-event deviations: with a set subclass injected into the library's modules, every single iteration "
         "event of a run is given every alternative order of that set (deviation bound 1) on 2-3 task models; "
         "non-trivial = distinct models with at least one dependency link (permutations) or explored history roots",
         "bounds": {"perm_models": len(pi), "history_models": len(hi), "tasks": "3 (thorough 4)", "event_deviation_models": len(ei), "event_deviation_bound": 1},
@@ -469,6 +547,14 @@ def replay(v):
     if v.get("kind") == "event":
         col = work_events([(v["spec"], v["opts"])])
         return [x for x in col.violations if x.get("event") == v.get("event") and x.get("perm") == v.get("perm")]
+    if v.get("kind") == "order":
+        col = engines.Collector()
+        history_dependence(col)
+        return col.violations
+    if v.get("kind") == "defaultid":
+        col = engines.Collector()
+        default_id_rebuild(col)
+        return col.violations
     if v.get("kind") == "proc":
         col = engines.Collector()
         cross_process(col)
